@@ -21,6 +21,7 @@ EXPLANATION = (
     "call in an inherited operator binds against the constructor of each subclass that inherits it; "
     "Interval's operators delegate to as_duration(). NOT decided: float rounding of total_seconds()-based "
     "__add__/__sub__."
+    " As built: ARITH.tabulated runs every operator (+, reflected +, -, unary -, * and reflected *, //, /, %, divmod) with the checker's interpreter on Duration instance stubs and native timedeltas of both signs (sub-second parts, day boundaries, half-even ties, a length beyond 2**53 us) and compares length and result type with the same operation on the standard library's timedelta; where it succeeds, clauses (1) result type, (3) and (4) are established by it and the shape rules only decide for code outside the interpreter."
 )
 
 TD_ATTRS = set(dir(_stdlib_datetime.timedelta))
